@@ -15,12 +15,17 @@ from typing import Any, Dict, List, Optional
 TYPE = '_synclose._tcp.local.'
 
 
-def record(n_services: int, cb_seconds: float, sid: str) -> Optional[dict]:
-    """Returns the trace, or None when the sandbox cannot give the library a real socket (the sub-check is then skipped)."""
-    from zeroconf import DNSOutgoing, DNSPointer, ServiceListener, Zeroconf, const
+def record(n_services: int, cb_seconds: float, sid: str, mode: str = 'backlog') -> Optional[dict]:
+    """Returns the trace, or None when the sandbox cannot give the library a real socket (the sub-check is then skipped).
+    mode 'backlog': a thread-based browser with n_services slow callbacks queued when close() is called from this thread.
+    mode 'foreign-loop': a registered service; close() is called from a coroutine of ANOTHER asyncio loop running in this thread."""
+    import asyncio
+    sys.path.insert(0, os.path.dirname(os.path.dirname(os.path.abspath(__file__))))
+    from vf import wire
+    from zeroconf import DNSOutgoing, DNSPointer, ServiceInfo, ServiceListener, Zeroconf, const
     t0 = time.monotonic()
     lock = threading.Lock()
-    events: List[dict] = [{'ev': 'start', 't': 0, 'layout': 'real', 'nsock': 1}]
+    events: List[dict] = [{'ev': 'start', 't': 0}]
 
     def ev(_ev: str, **kw: Any) -> None:
         with lock:
@@ -29,10 +34,11 @@ def record(n_services: int, cb_seconds: float, sid: str) -> Optional[dict]:
             events.append(e)
 
     names: Dict[str, int] = {}
+    recs: Dict[tuple, int] = {}
 
     class Slow(ServiceListener):
         def _cb(self, kind: str, name: str) -> None:
-            ev('cb', kind=kind, ty=1, name=names.setdefault(name.lower(), len(names) + 10))
+            ev('cb', kind=kind, name=names.setdefault(name.lower(), len(names) + 10))
             time.sleep(cb_seconds)          # stands for a listener that looks the service up and waits for the answer
 
         def add_service(self, zc: Any, type_: str, name: str) -> None:
@@ -47,32 +53,63 @@ def record(n_services: int, cb_seconds: float, sid: str) -> Optional[dict]:
         zc = Zeroconf(interfaces=['127.0.0.1'])
     except Exception:  # noqa: BLE001
         return None
+    orig_send = zc.async_send
+
+    def logged_send(out: Any, *a: Any, **kw: Any) -> None:
+        # what the instance multicasts, projected with the independent parser: [record id, ttl] per record
+        try:
+            if not a and not kw.get('addr'):
+                for data in out.packets():
+                    m = wire.parse(data)
+                    if m.is_response:
+                        ev('send', recs=[[recs.setdefault((r.name.text.lower(), r.type, repr(wire.rd_key(r.type, r.rd))), len(recs) + 1), min(r.ttl, 1)]
+                                         for r in m.records()])
+        except Exception as ex:  # noqa: BLE001
+            ev('exc', what='harness:' + type(ex).__name__, msg=str(ex)[:100])
+        orig_send(out, *a, **kw)
+    zc.async_send = logged_send            # type: ignore[method-assign]
     try:
-        zc.add_service_listener(TYPE, Slow())
-        time.sleep(0.3)
-        out = DNSOutgoing(const._FLAGS_QR_RESPONSE | const._FLAGS_AA)
-        for k in range(n_services):
-            out.add_answer_at_time(DNSPointer(TYPE, const._TYPE_PTR, const._CLASS_IN, 4500, 'Inst%d.%s' % (k, TYPE)), 0)
-        assert zc.loop is not None
-        zc.loop.call_soon_threadsafe(zc.engine.protocols[0].datagram_received, out.packets()[0], ('127.0.0.1', const._MDNS_PORT))
-        time.sleep(0.3)                     # the browser thread is busy with the first event, the others are queued
-        ev('api', op='close', again=False)
-        zc.close()                          # from this (non-loop) thread
+        if mode == 'backlog':
+            zc.add_service_listener(TYPE, Slow())
+            time.sleep(0.3)
+            out = DNSOutgoing(const._FLAGS_QR_RESPONSE | const._FLAGS_AA)
+            for k in range(n_services):
+                out.add_answer_at_time(DNSPointer(TYPE, const._TYPE_PTR, const._CLASS_IN, 4500, 'Inst%d.%s' % (k, TYPE)), 0)
+            assert zc.loop is not None
+            zc.loop.call_soon_threadsafe(zc.engine.protocols[0].datagram_received, out.packets()[0], ('127.0.0.1', const._MDNS_PORT))
+            time.sleep(0.3)                     # the browser thread is busy with the first event, the others are queued
+            ev('api', op='close')
+            zc.close()                          # from this (non-loop) thread
+            ev('api_ret', op='close', ok=True)
+        else:
+            import socket
+            info = ServiceInfo(TYPE, 'Mine.' + TYPE, 80, properties=b'\x03a=1', server='mine-host.local.', addresses=[socket.inet_aton('127.0.0.1')])
+            zc.register_service(info, cooperating_responders=True)
+            time.sleep(0.8)                     # the three announcements are out
+
+            async def shutdown() -> None:
+                # an asyncio application that owns a blocking Zeroconf and closes it from its own shutdown coroutine
+                ev('api', op='close')
+                zc.close()
+                ev('api_ret', op='close', ok=True)
+            asyncio.run(shutdown())
+        ev('api', op='close')
+        zc.close()                              # closing again is a no-op
         ev('api_ret', op='close', ok=True)
     except Exception as ex:  # noqa: BLE001
         ev('exc', what=type(ex).__name__, msg=str(ex)[:100])
     # whatever was still queued would fire within the time the backlog needs
-    time.sleep(n_services * cb_seconds + 1.0)
+    time.sleep((n_services * cb_seconds if mode == 'backlog' else 0.5) + 1.0)
     ev('end')
-    return {'id': sid, 'events': events, 'recs': [], 'names': len(names), 'enum_nb': 1, 'dups': []}
+    return {'id': sid, 'events': events}
 
 
-def record_in_subprocess(n_services: int, cb_seconds: float, sid: str) -> Optional[dict]:
+def record_in_subprocess(n_services: int, cb_seconds: float, sid: str, mode: str = 'backlog') -> Optional[dict]:
     """The virtual-time harness replaces the library's clock process-wide: the real-time history runs in an interpreter of its own."""
     verif = os.path.dirname(os.path.dirname(os.path.abspath(__file__)))
     code = ('import sys, json; sys.path.insert(0, %r); sys.path.insert(0, %r); from props import c17sync; '
-            'print("TRACE " + json.dumps(c17sync.record(%d, %r, %r)))'
-            % (os.path.join(os.environ.get('VERIF_REPO', '/repo'), 'src'), verif, n_services, cb_seconds, sid))
+            'print("TRACE " + json.dumps(c17sync.record(%d, %r, %r, %r)))'
+            % (os.path.join(os.environ.get('VERIF_REPO', '/repo'), 'src'), verif, n_services, cb_seconds, sid, mode))
     p = subprocess.run([sys.executable, '-c', code], capture_output=True, text=True, timeout=600)
     for line in p.stdout.splitlines():
         if line.startswith('TRACE '):
